@@ -24,6 +24,8 @@ ParseOk(r) ==
     LET d == G!Denote(r.text) IN
     IF ~d.ok THEN PrintT(<<"GEN", l>>)                               \* not a valid text: nothing claimed
     ELSE IF d.big /\ Strict(r.fl) THEN r.got.st # "success"
+    \* "within the nesting limit": a valid text that nests deeper than the tokener's limit is refused as too deep
+    ELSE IF "depth" \in DOMAIN r /\ G!MaxDepthOf(d) > r.depth - 1 THEN r.got.st = "depth"
     ELSE /\ r.got.st = "success" /\ r.got.end = Len(r.text) /\ r.dbl_ok
          /\ \/ r.got.val = d.v
             \* classification only (the line is still a MISMATCH): the value is the denoted one with member names cut at a NUL
